@@ -170,3 +170,41 @@ func vC06RelayCC(rc *runCtx) {
 		rc.violate("relay", "C06:control-mode-no-tunnel", "the transfer announced by a control-mode framed trigger did not run through the tunnel")
 	}
 }
+
+// vC06SlowWrite: whole transfers in which the client's writes towards the server are slow to return (a slow pty
+// or ssh channel: the bytes are on their way, and may be answered, before the call is back). The one transfer the
+// trigger announces still runs: the answer to the ACT finds the transfer it belongs to.
+func vC06SlowWrite(rc *runCtx) {
+	tp := rc.tape
+	cfg := vDrawConfig(tp, false)
+	cfg.timeout = 20
+	cfg.trigVersion = ""
+	src := filepath.Join(rc.dir, "src")
+	dst := filepath.Join(rc.dir, "dst")
+	os.MkdirAll(dst, 0755)
+	spec := vGenSources(rc, src, 2, cfg.dirMode, 40000, !cfg.overwrite)
+	o := cfg.opts()
+	o.srcPaths, o.dstDir = spec.paths, dst
+	o.profile = transportProfile{segPm: 200, coalPm: 100}
+	o.simCap = 10 * time.Minute
+	rc.res.ClassKey = "slowwrite " + cfg.key()
+	rc.res.Scenario["config"] = cfg.key()
+	rc.res.Scenario["flags"] = strings.Join(o.flags, " ")
+	before := vSnapshot(dst)
+	x := newXferWorld(rc, o)
+	x.up[0].ReturnLag = time.Duration(2+tp.Draw("c06sw.lag", 150)) * time.Millisecond
+	rc.res.Scenario["write_return_lag"] = x.up[0].ReturnLag.String()
+	rc.fault("client-writes-slow-to-return")
+	x.start()
+	rc.w.Run(x.finished)
+	rep := x.report()
+	vCheckFidelity(rc, x, rep, before, true)
+	if rc.res.Class == "violation" {
+		rc.res.Sig = strings.Replace(rc.res.Sig, "C01:", "C06:slowwrite:", 1)
+		rc.res.Msg = "client writes slow to return (" + x.up[0].ReturnLag.String() + "): " + rc.res.Msg
+	}
+	// the handshake lines are the transfer's, never the terminal's
+	if t, _, _ := x.term.Snapshot(); rc.res.Class == "ok" && (bytes.Contains(t, []byte("#CFG:")) || bytes.Contains(t, []byte("#NUM:"))) {
+		rc.violate("started", "C06:protocol-lines-on-terminal", "protocol lines of the announced transfer were shown on the terminal instead of reaching the transfer")
+	}
+}
